@@ -26,9 +26,12 @@ def variant(code, draw):
     choices = ['case', 'space-insert']
     if any(ch.isspace() for ch in code):
         choices.append('space-delete')
-    kg = [g for g in KG_GROUPS if g in spans]
+    # the known weight groups, and any other '...num' group of the pattern whose text carries a k / kg suffix (a throw added
+    # to the vocabulary later is held to the same spelling rules)
+    kg = [g for g in spans if g in KG_GROUPS or (g.endswith('num') and g not in G_GROUPS and
+                                                _KGSFX.search(code[spans[g][0]:spans[g][1]]))]
     gg = [g for g in G_GROUPS if g in spans]
-    dg = [g for g in DEC_GROUPS if g in spans]
+    dg = [g for g in spans if g in DEC_GROUPS or g in kg]
     # weight the structural variants up: they are the interesting ones
     choices += ['kg-suffix'] * (3 if kg else 0) + ['g-suffix'] * (3 if gg else 0) + ['zeros'] * (4 if dg else 0)
     kind = choices[draw(len(choices))]
